@@ -42,6 +42,7 @@ type TierOpts struct {
 	ChanScale   int      `json:"chan_scale"`
 	ChanScaleMin int     `json:"chan_scale_min"`
 	MakeCap     int      `json:"make_cap"`
+	ConstRewrite []interp.ConstRewrite `json:"const_rewrite"`
 	Race        bool     `json:"race"`
 	WallS       int      `json:"wall_s"`
 	Skip        bool     `json:"skip"`
@@ -377,7 +378,7 @@ func cmdRun(args []string) int {
 				continue
 			}
 			opts := interp.Options{Workers: nw, Solver: "z3", TimeoutMs: 10000, Unwind: 64, StepBudget: 20_000_000, Trace: *trace,
-				KnownPanicSites: sites, Explore: to.Explore, Livelock: to.Livelock, SchedBudget: to.SchedBudget, ChanScale: to.ChanScale, ChanScaleMin: to.ChanScaleMin, MakeCap: to.MakeCap, Race: to.Race, Params: to.Params}
+				KnownPanicSites: sites, Explore: to.Explore, Livelock: to.Livelock, SchedBudget: to.SchedBudget, ChanScale: to.ChanScale, ChanScaleMin: to.ChanScaleMin, MakeCap: to.MakeCap, ConstRewrite: to.ConstRewrite, Race: to.Race, Params: to.Params}
 			if *tier == "thorough" {
 				opts.TimeoutMs = 60000
 			}
